@@ -47,11 +47,61 @@ def falsifier(ctx, n_cases):
                        nontrivial=any(e[0] == 14 for e in r["events"]))
 
 
+def jump_time_oracle(ctx, n_cases):
+    """Jump-time clause on the REAL NoisyMPSBackendImpl: the squared norm decays smoothly, 2^(-2 r (t - t_last)), with
+    rates from fast down to far below config.precision per ns; every jump must be applied within the 1 ns root
+    tolerance of the time at which the squared norm crosses the threshold in force (analytic crossing time)."""
+    import math
+    worst = 0.0
+    for i in range(n_cases):
+        rng = ctx.rng
+        steps = rng.randint(1, 4)
+        length = rng.choice([200.0, 2000.0, 10000.0, 50000.0])
+        times = [0.0]
+        for _ in range(steps):
+            times.append(times[-1] + length * rng.choice([0.5, 1.0, 1.5]))
+        rate = rng.choice([3e-7, 1e-6, 1e-5, 1e-4, 1e-3, 1e-2]) * rng.uniform(0.5, 2.0)
+        thr = [rng.randint(1, 63) / 64.0 for _ in range(60)]
+        case = dict(kind="Noisy", N=rng.choice([2, 3, 4]), steps=steps, times=times, etol=1e-5, maxsw=2000, onorm=[],
+                    ounif=thr, oenergy=[], osame=[True] * steps, nprog=20000, jump_norm_one=True,
+                    physical={"rate": rate, "bad_jump_norm": 0.0, "smooth": True}, jump_seed=rng.randint(0, 10 ** 6))
+        r = T.run_impl(case)
+        jumps = [e[2][0] for e in r["events"] if e[0] == 14]
+        ctx.count_case({"kind": "jump-time", "steps": steps, "length": length, "rate_exp": round(math.log10(rate)),
+                        "jumps": len(jumps), "outcome": r["outcome"]}, nontrivial=bool(jumps))
+        if r["outcome"] not in ("finished",):
+            if r["outcome"] == "budget":
+                ctx.violation("noisy run did not terminate within 20000 progress() calls",
+                              {"case": case, "finding_key": "noisy-nontermination"})
+            continue
+        t_last = 0.0
+        for k, tj in enumerate(jumps):
+            tc = t_last + math.log2(1.0 / thr[k]) / (2.0 * rate)
+            worst = max(worst, abs(tj - tc))
+            if abs(tj - tc) > 1.0 + 1e-6:
+                ctx.violation(f"jump {k} applied at t={tj!r} but the squared norm 2^(-2*{rate:.3g}*(t-{t_last!r})) crosses "
+                              f"the threshold {thr[k]} at t={tc!r}: {abs(tj - tc):.3g} ns away (root tolerance 1 ns)",
+                              {"case": {k2: v for k2, v in case.items() if k2 != "onorm"}, "jump_index": k,
+                               "finding_key": "jump-time-off"})
+                break
+            t_last = tj
+        # no jump may be missing either: the norm at the end must still be above the threshold in force
+        end = times[-1]
+        if 2.0 ** (-2.0 * rate * (end - t_last)) < thr[len(jumps)] - 1e-9 and end - t_last > 1.0:
+            tc = t_last + math.log2(1.0 / thr[len(jumps)]) / (2.0 * rate)
+            if tc < end - 1.0:
+                ctx.violation(f"the squared norm crosses the threshold {thr[len(jumps)]} at t={tc!r} < end {end} but no jump "
+                              "was applied", {"case": {k2: v for k2, v in case.items() if k2 != "onorm"},
+                                              "finding_key": "jump-missing"})
+    ctx.extra["worst_jump_time_error_ns"] = worst
+
+
 def run(ctx):
     common.coq_make(["Model/MpsMachine.vo"])
     common.standard_proof_stage(ctx, "C18", ["Properties/C18.vo", "Properties/C19.vo"])
     trace_stage(ctx, "Noisy", ctx.n(80, 1500), "C18trace")
     falsifier(ctx, ctx.n(60, 1000))
+    jump_time_oracle(ctx, ctx.n(40, 600))
     ctx.rule = ("scripted noisy stepping cases (N 2..9, 1-5 steps; norm streams: physical exponential decay with "
                 "renormalisation at jumps (several jumps per step), random dyadic, decaying lists, no-jump, "
                 "threshold hit exactly; uniform streams dyadic): real NoisyMPSBackendImpl with kernels stubbed vs the "
